@@ -47,3 +47,137 @@ def r_varfield(db, rep):
                      "it is 0x%X instead of `one before the start`, the primitive's `ini == fin + 1` test (in size_t) does not fire and "
                      "word 0 of the array is accessed - out of bounds when the array has no words (every block uniform)" % (
                          f.qn, nm, fmt_path(f, pi), t["bits"], (1 << t["bits"]) - 1), f.qn)
+
+
+@rule("R-COPYBOUND", 1, "a block copy (memcpy / strncpy / memmove / std::copy_n) into a buffer that the same function allocates with "
+                         "new T[E] copies at most E elements: the count is compared with the extent symbolically; a count and an extent "
+                         "over unrelated quantities (a caller-supplied length against a dictionary constant) need a dominating test that "
+                         "relates them")
+def r_copybound(db, rep):
+    import itertools
+    import symx
+    from rules_serial import SeqBuilder
+    from rules_iter import pinned_sym
+    # lengths supplied by the caller of a query: parameter `strLen` of locate/extractPrefix/.., and the parameters of functions and
+    # constructors that receive it unchanged (two levels)
+    from rules_dispatch import kinds, QUERY_OPS
+    qlen = {}
+    for k in kinds(db):
+        for op in QUERY_OPS:
+            for m in db.methods_of(k, op):
+                for i, p0 in enumerate(m.params):
+                    if p0.get("n") in ("strLen", "len", "length") and (m.types[p0["t"]] or {}).get("kind") in ("uint", "int") and i > 0:
+                        qlen.setdefault(m.id, set()).add(i)
+    for _round in range(2):
+        for fid, idxs in list(qlen.items()):
+            g = db.funcs[fid]
+            if not g.body:
+                continue
+            for n in g.nodes():
+                if n["k"] in ("CallExpr", "CXXMemberCallExpr", "CXXConstructExpr") and n.get("f") in db.funcs:
+                    for j, a in enumerate(n.get("args", [])):
+                        sa = strip(a)
+                        if sa["k"] == "DeclRefExpr" and sa.get("dk") == "param" and sa.get("pi") in idxs:
+                            qlen.setdefault(n["f"], set()).add(j)
+    for f in sorted(db.funcs.values(), key=lambda x: (x.file, x.line)):
+        if not f.body or f.cfg is None or f.file.startswith("libcds/") or f.id not in qlen:
+            continue
+        copies = [n for n in f.calls() if callee_name(n) in ("memcpy", "strncpy", "memmove") and len(n.get("args", [])) == 3]
+        if not copies:
+            continue
+        # members that merely hold such a parameter (this->strLen = prefixLen)
+        holds = {}
+        for lv, w in written_lvalues(f):
+            pl = access_path(f, lv)
+            if pl and pl[0] == "this" and len(pl) == 2 and w.get("op") == "=" and w.get("rhs") is not None:
+                sr = strip(w["rhs"])
+                if sr["k"] == "DeclRefExpr" and sr.get("dk") == "param" and sr.get("pi") in qlen[f.id]:
+                    holds[("field", ("this", pl[1]))] = sr["pi"]
+        sb = SeqBuilder(db, f, "c", nosubst=True)
+        try:
+            sb.run()
+        except Exception:
+            continue
+        allocs = {}
+        for p, newn, ext in sb.allocs:
+            if newn.get("size") is not None:
+                allocs.setdefault(p, []).append(newn)
+        for n0 in f.live_nodes():
+            if n0["k"] == "DeclStmt":
+                for d in n0["decls"]:
+                    if d.get("init") is not None and "d" in d:
+                        r = strip(d["init"])
+                        if r["k"] == "CXXNewExpr" and r.get("array") and r.get("size") is not None:
+                            allocs.setdefault(("local", d["d"]), []).append(r)
+        for c in copies:
+            dst = strip(c["args"][0])
+            while dst["k"] in EXPLICIT_CASTS:
+                dst = strip(dst["sub"])
+            dp = access_path(f, dst)
+            if dp is None or dp not in allocs or len(allocs[dp]) != 1:
+                continue
+            newn = allocs[dp][0]
+            if not f.cfg.position(newn) or not f.cfg.position(c) or not f.cfg.dominates(f.cfg.position(newn), f.cfg.position(c)):
+                continue
+            at = f.types[newn["alloct"]] if "alloct" in newn else {"bits": 8}
+            esz = max((at.get("bits") or 8) // 8, 1)
+            E = pinned_sym(db, f, newn["size"], None, None)
+            N = pinned_sym(db, f, c["args"][2], None, None)
+            def unhold(t):
+                if isinstance(t, tuple):
+                    if t in holds:
+                        return ("param", holds[t])
+                    return tuple(unhold(x) for x in t)
+                return t
+            E, N = unhold(E), unhold(N)
+            rep.visit(f)
+            rep.inst(f.nloc(c), "%s: %s of %s bytes into a buffer of %s x %d bytes" % (f.qn, callee_name(c), symx.canon(N), symx.canon(E), esz))
+            rep.ob()
+            if symx.has_unknown(E) or symx.has_unknown(N):
+                continue
+            # strlen(x) + c etc. are uninterpreted calls: comparable only when they occur on both sides
+            syms = sorted(symx.atoms(E) | symx.atoms(N), key=repr)
+            if not syms or len(syms) > 4:
+                continue
+            only_n = symx.atoms(N) - symx.atoms(E)
+            wit = None
+            grid = [0, 1, 2, 7, 64, 1000]
+            for vals in itertools.islice(itertools.product(grid, repeat=len(syms)), 4000):
+                val = dict(zip(syms, vals))
+                vn, ve = symx.evaluate(N, val), symx.evaluate(E, val)
+                if vn is None or ve is None:
+                    continue
+                if vn > ve * esz:
+                    wit = {symx.canon(k): v for k, v in val.items()}
+                    break
+            if wit is None:
+                continue
+            # a dominating test that mentions a symbol of the count excuses the site (value-level from there on)
+            guarded = False
+            names = set()
+            for a in only_n | symx.atoms(N):
+                if a[0] in ("param", "local"):
+                    names.add((a[0], a[1]))
+                elif a[0] == "field":
+                    names.add(tuple(a[1]))
+            for cnd, pol in f.cfg.guards(c):
+                if cnd is None:
+                    continue
+                sc = strip(cnd)
+                if sc["k"] != "BinaryOperator" or sc["op"] not in ("<", "<=", ">", ">="):
+                    continue
+                op = sc["op"] if pol else {"<": ">=", "<=": ">", ">": "<=", ">=": "<"}[sc["op"]]
+                small = sc["lhs"] if op in ("<", "<=") else sc["rhs"]       # the side that is bounded from above
+                for x in walk(small):
+                    p = access_path(f, x) if x["k"] in ("DeclRefExpr", "MemberExpr") else None
+                    if p is not None and (tuple(p) in names or (p[0], p[1]) in names):
+                        guarded = True
+            if guarded or not only_n:
+                continue
+            # only counts that are a caller-supplied query length (directly, or held in a member)
+            if not all(a[0] == "param" and a[1] in qlen[f.id] for a in only_n):
+                continue
+            rep.viol("%s#copy-into-%s" % (f.qn, fmt_path(f, dp).replace("this->", "")), f.nloc(c),
+                     "%s copies %s bytes into %s, which it allocated with %s elements: the count depends on %s, which the extent does not "
+                     "mention, and no test on the way relates the two (e.g. %s): a long enough argument writes past the buffer" % (
+                         f.qn, symx.canon(N), fmt_path(f, dp), symx.canon(E), ", ".join(sorted(symx.canon(a) for a in only_n)), wit), f.qn)
